@@ -353,6 +353,60 @@ B=[
 		err = c.consensus.LogUnpin(ctx, pin)
 		return pin, err
 	case api.ClusterDAGType:'''),
+ ('B44-commit-no-goto','consensus/raft/consensus.go',
+  '''		if finalErr != nil {
+			goto RETRY
+		}
+
+		switch op.Type {
+		case LogOpPin:
+			logger.Infof("pin committed to global state: %s", op.Cid.Cid)
+		case LogOpUnpin:
+			logger.Infof("unpin committed to global state: %s", op.Cid.Cid)
+		}
+		break
+
+	RETRY:
+		time.Sleep(cc.config.CommitRetryDelay)
+	}
+	return finalErr''','''		if finalErr == nil {
+			switch op.Type {
+			case LogOpPin:
+				logger.Infof("pin committed to global state: %s", op.Cid.Cid)
+			case LogOpUnpin:
+				logger.Infof("unpin committed to global state: %s", op.Cid.Cid)
+			}
+			return nil
+		}
+		time.Sleep(cc.config.CommitRetryDelay)
+	}
+	return finalErr'''),
+ ('B45-logpin-plain-return','consensus/raft/consensus.go',
+  '''	op := cc.op(ctx, pin, LogOpPin)
+	err := cc.commit(ctx, op, "LogPin", pin)
+	if err != nil {
+		return err
+	}
+	return nil''','''	return cc.commit(ctx, cc.op(ctx, pin, LogOpPin), "LogPin", pin)'''),
+ ('B46-crdt-logunpin-item-var','consensus/crdt/consensus.go',
+  '''		select {
+		case css.batchItemCh <- batchItem{
+			ctx:   ctx,
+			isPin: false,
+			pin:   pin,
+		}:
+			return nil
+		default:
+			return fmt.Errorf("error unpinning: %w", ErrMaxQueueSizeReached)
+		}''','''		var item batchItem
+		item.ctx = ctx
+		item.pin = pin
+		select {
+		case css.batchItemCh <- item:
+			return nil
+		default:
+		}
+		return fmt.Errorf("error unpinning: %w", ErrMaxQueueSizeReached)'''),
 ]
 os.makedirs(OUT,exist_ok=True)
 n=0
